@@ -37,11 +37,14 @@ class S:
         self.u = None          # id held by the tuple or None (tuple absent)
         self.next = 1          # next vmod id
         self.clone = None      # dict(a,b,t,u) or None
+        self.ret = None        # object held by the returned-value holder of the context (the host never collects it)
         self.created = []
         self.maybe_temp = set()  # ids that are unreferenced but may still sit in the temporary pool
 
     def holders(self):
         h = set()
+        if self.ret is not None:
+            h.add(self.ret)
         for src in (self, ) + ((self.clone,) if self.clone else ()):
             for v in (src.a, src.b, src.u):
                 if v is not None:
@@ -65,7 +68,7 @@ class S:
             if v not in ren:
                 ren[v] = len(ren) + 1
             return ren[v]
-        k = [r(self.a), r(self.b), None if self.t is None else [r(x) for x in self.t], r(self.u)]
+        k = [r(self.a), r(self.b), None if self.t is None else [r(x) for x in self.t], r(self.u), r(self.ret)]
         if self.clone:
             c = self.clone
             k.append([r(c.a), r(c.b), None if c.t is None else [r(x) for x in c.t], r(c.u)])
@@ -233,6 +236,20 @@ def _s_refused_var(s):
         return False
 
 
+def _s_return_var(s):
+    if s.a is None:
+        return False
+    s.ret = s.a
+
+
+def _s_return_temp(s):
+    s.ret = s.new()
+
+
+def _s_return_int(s):
+    s.ret = None
+
+
 def _s_tab_failing_item(s):
     # the item expression is evaluated per element: the first evaluation makes an object, the second one raises
     s.new()
@@ -276,6 +293,11 @@ STMTS = {
     "forall-refused-temp": ("forall $o in tab(1, vmod(9)).concat(vmod(10)) loop zz = 0; end loop;", _s_refused_temp),
     "forall-refused-var": ("forall $o in t loop zz = 0; end loop;", _s_refused_var),
     "tab-failing-item": ('sq = ""; begin t2 = tab(3, fonce(sq.concat("x"))); exception when others then zz = 0; end;', _s_tab_failing_item),
+    # the program returns an object; the host only resets the stop condition and runs the next text (the holder keeps the
+    # object until another value is returned or the context is freed)
+    "return-var": ("return a;", _s_return_var),
+    "return-temp": ("return vmod(31);", _s_return_temp),
+    "return-int": ("return 5;", _s_return_int),
     "forall-failing-body": ("forall e in t loop zz = vmod(11).get(); raise efail; end loop;", _s_failing_body),
 }
 FAILING = {"forall-refused-temp", "forall-refused-var", "forall-failing-body"}
@@ -333,7 +355,7 @@ def level_gen(frontier):
                 s = copy.deepcopy(base)
                 if not apply(s, name):
                     continue
-                ops = ["isolate", op_ctx(0, True), op_run(PRELUDE), "vlog"]
+                ops = ["isolate", "nodrop 1", op_ctx(0, True), op_run(PRELUDE), "vlog"]
                 for h in hist + [name]:
                     ops += ops_of(h)
                 ops += [op_dump(0, "A,B,T,U")]
@@ -365,15 +387,15 @@ def check(case, res):
 
     def bad(key, msg):
         vs.append(Violation(key, "%s (history %s)" % (msg, hist), case))
-    if st[2].get("r") != "ok":
-        bad("setup", "prelude failed: %s" % st[2])
+    if st[3].get("r") != "ok":
+        bad("setup", "prelude failed: %s" % st[3])
         return vs, False
     # walk the steps alongside the model
     s = S()
     destroyed = {}
     created = []
-    k = 4
-    pre = parse_log(st[3].get("log", ""))
+    k = 5
+    pre = parse_log(st[4].get("log", ""))
     for e in pre:
         if e[0] == "C" and e[1] == "vmod":
             created.append(int(e[2]))
